@@ -97,6 +97,9 @@ class StandardGeometry(BaseGeometry):
         with warnings.catch_warnings():
             warnings.simplefilter('ignore')
             t[a == 0] = -c[a == 0] / b[a == 0]
+            # as for the quadratic roots: an intersection behind the ray
+            # does not count
+            t[(a == 0) & (t < 0)] = np.nan
             z = rays.z + t * rays.N
             t[(1 + self.k) * z / self.radius > 1] = np.nan
 
